@@ -291,6 +291,8 @@ impl<'a> Lexer<'a> {
             }
             if self.buf[self.pos] == substr[matched] {
                 matched += 1;
+            } else if self.buf[self.pos] == substr[0] {
+                matched = 1;
             } else {
                 matched = 0;
             }
